@@ -1,11 +1,12 @@
 import Folang.Lemmas.SimCore
+import Folang.Lemmas.SimPA
 import Folang.Lemmas.SimMonoSrc
 /-
 C01 / C17 — forward simulation for the lowering of core Folang to Go-core.
 
 `lower_correct`: for EVERY well-formed program of the core fragment, every fuel, if the reference
 semantics (the evaluator the oracle runs: `runProg`) finishes with output `tr`, then the Go-core
-semantics of the lowered program (`grunProg (lowerProg P)`) finishes with the SAME output `tr` and a
+semantics of the lowered program (`grunProg (lowerProg md P)`) finishes with the SAME output `tr` and a
 related result.  No bound on program size, nesting, recursion depth, number of closures or calls.
 The fragment: literals, variables, first-order primitives (operators, equality, tuples, records,
 slices, constructors, printing, formatting, interpolation), `&&` `||`, if/else with block branches,
@@ -17,7 +18,7 @@ Hypothesis `wfProg` (decidable, checked per program by the oracle): the given ar
 application are PURE: built from literals, variables not named like the closure parameters `_r0 …`,
 and output-free primitives (constructors, operators, …) — with an effectful argument the lowering is
 NOT faithful (known finding D9, Props/C01.papp_effects_late).
-What the theorem is about: the models `lowerE …` (Sem/Lower.lean) and `gevalN` (Sem/GoCore.lean);
+What the theorem is about: the models `lowerE md …` (Sem/Lower.lean) and `gevalN` (Sem/GoCore.lean);
 both are tied to the real compiler and to real Go on every run (stream sem.prog; DESIGN §0).
 -/
 namespace Folang.Sem
@@ -28,13 +29,13 @@ theorem evalN_succ_app (P : Prog) (n : Nat) : (evalN P (n + 1)).app = stepApp (e
 
 theorem grunStmts_nil (r : GRec) (genv : GEnv) : grunStmts r genv [] = some ([], genv) := rfl
 
-variable {P : Prog} {n : Nat}
+variable {md : Bool} {P : Prog} {n : Nat}
 
 /-- saturated call of a top-level function -/
-theorem sim_applyFull (hP : wfProg P) (ih : SimAt P n) {f : String} {arity : Nat} {all : List SVal} {tr : Trace} {v : SVal}
-    (h : applyFull (evalN P n) P f arity all = some (tr, v)) {gall : List GVal} (hr : VRels all gall) :
+theorem sim_applyFull (hP : wfProg md P) (ih : SimAt md P n) {f : String} {arity : Nat} {all : List SVal} {tr : Trace} {v : SVal}
+    (h : applyFull (evalN P n) P f arity all = some (tr, v)) {gall : List GVal} (hr : VRels md all gall) :
     ∃ d, P.find f = some d ∧ d.params.length = gall.length ∧
-      ∃ m gv, (gevalN (lowerProg P) m).body (d.params.zip gall).reverse (lowerB d.body) = some (tr, gv) ∧ VRel v gv := by
+      ∃ m gv, (gevalN (lowerProg md P) m).body (d.params.zip gall).reverse (lowerB md d.body) = some (tr, gv) ∧ VRel md v gv := by
   unfold applyFull at h
   split at h
   · rename_i hlen
@@ -42,14 +43,14 @@ theorem sim_applyFull (hP : wfProg P) (ih : SimAt P n) {f : String} {arity : Nat
     · rename_i d hfind
       split at h
       · rename_i hpl
-        have hwb : wfB d.body = true := hP d (find_mem hfind)
-        obtain ⟨m, gv, hg, hrv⟩ := ih.body h hwb (ERel.reverse (ERel.zip (ps := d.params) hr))
+        have hwb : wfB md d.body = true := hP d (find_mem hfind)
+        obtain ⟨m, gv, hg, hrv⟩ := ih.body h hwb (by simpa using ERel.call (ps := d.params) hr (ERel.nil (bind := md)))
         exact ⟨d, hfind, by rw [hpl, ← hlen, hr.length], m, gv, hg, hrv⟩
       · cases h
     · cases h
   · cases h
 
-theorem sim_step (hP : wfProg P) (ih : SimAt P n) : SimAt P (n + 1) := by
+theorem sim_step (hP : wfProg md P) (ih : SimAt md P n) : SimAt md P (n + 1) := by
   refine ⟨?_, ?_, ?_⟩
   -- expressions
   · intro env e tr v h hwf genv he
@@ -66,7 +67,7 @@ theorem sim_step (hP : wfProg P) (ih : SimAt P n) : SimAt P (n + 1) := by
       | some v' =>
         simp [hl] at h
         obtain ⟨rfl, rfl⟩ := h
-        obtain ⟨gv, hgl, hrv⟩ := he.lookup hl
+        obtain ⟨gv, hgl, hrv⟩ := he.lookup (by simpa [wfE] using hwf) hl
         exact ⟨1, gv, by simp only [lowerE]; exact g_var _ hgl, hrv⟩
     | prim p args =>
       simp only [stepExpr] at h
@@ -81,7 +82,7 @@ theorem sim_step (hP : wfProg P) (ih : SimAt P n) : SimAt P (n + 1) := by
         exact g_prim _ hg1 (hr1.toFOs ▸ hfos) h3
       · cases h2
     | and a b =>
-      have hw : wfE a = true ∧ wfE b = true := by simpa [wfE] using hwf
+      have hw : wfE md a = true ∧ wfE md b = true := by simpa [wfE] using hwf
       simp only [stepExpr] at h
       obtain ⟨t1, va, t2, h1, h2, rfl⟩ := Res.bind_eq_some.mp h
       obtain ⟨m1, gva, hg1, hr1⟩ := ih.expr h1 hw.1 he
@@ -96,7 +97,7 @@ theorem sim_step (hP : wfProg P) (ih : SimAt P n) : SimAt P (n + 1) := by
         exact g_and_true _ (g_lift_expr _ (by omega) hg1) (g_lift_expr _ (by omega) hg2)
       · cases h2
     | or a b =>
-      have hw : wfE a = true ∧ wfE b = true := by simpa [wfE] using hwf
+      have hw : wfE md a = true ∧ wfE md b = true := by simpa [wfE] using hwf
       simp only [stepExpr] at h
       obtain ⟨t1, va, t2, h1, h2, rfl⟩ := Res.bind_eq_some.mp h
       obtain ⟨m1, gva, hg1, hr1⟩ := ih.expr h1 hw.1 he
@@ -111,7 +112,7 @@ theorem sim_step (hP : wfProg P) (ih : SimAt P n) : SimAt P (n + 1) := by
         exact g_or_false _ (g_lift_expr _ (by omega) hg1) (g_lift_expr _ (by omega) hg2)
       · cases h2
     | ite c t f =>
-      have hw : (wfE c = true ∧ wfB t = true) ∧ wfB f = true := by simpa [wfE] using hwf
+      have hw : (wfE md c = true ∧ wfB md t = true) ∧ wfB md f = true := by simpa [wfE] using hwf
       simp only [stepExpr] at h
       obtain ⟨t1, vc, t2, h1, h2, rfl⟩ := Res.bind_eq_some.mp h
       obtain ⟨m1, gvc, hg1, hr1⟩ := ih.expr h1 hw.1.1 he
@@ -128,7 +129,9 @@ theorem sim_step (hP : wfProg P) (ih : SimAt P n) : SimAt P (n + 1) := by
         exact g_ifElse_false _ (g_lift_expr _ (by omega) hg1) (g_lift_body _ (by omega) hg2)
       · cases h2
     | call f arity args =>
-      have hw : wfL args = true ∧ (if args.length < arity then isPureForL (restNames (arity - args.length)) args else true) = true := by
+      have hw : wfL md args = true ∧ (if args.length < arity then
+          (if md = true then paOK (restNames (arity - args.length)) args
+           else isPureForL (restNames (arity - args.length)) args) else true) = true := by
         simpa [wfE] using hwf
       simp only [stepExpr] at h
       obtain ⟨t1, vs, t2, h1, h2, rfl⟩ := Res.bind_eq_some.mp h
@@ -138,14 +141,47 @@ theorem sim_step (hP : wfProg P) (ih : SimAt P n) : SimAt P (n + 1) := by
         simp only [hlt, if_true] at h2
         obtain ⟨rfl, rfl⟩ := Res.pure_eq_some.mp h2
         have hlt' : args.length < arity := hlen ▸ hlt
-        have hat : isPureForL (restNames (arity - args.length)) args = true := by simpa [hlt'] using hw.2
-        obtain ⟨rfl, gvs, hga, hrv, hall⟩ := sim_pures (restNames (arity - args.length)) n h1 hat he
-        refine ⟨1, .clo (restNames (arity - args.length))
-          (.mk [] (.ret (.callFn f (lowerL args ++ (restNames (arity - args.length)).map GExpr.var)))) genv, ?_, ?_⟩
-        · simp only [lowerE, hlt', if_true, List.append_nil]
-          exact g_funcLit _ 0 genv _ _
-        · rw [← hlen] at hall ⊢
-          exact VRel.pap hlt hga hrv hall
+        cases md with
+        | false =>
+          -- tinyfo: every given argument stays inside the closure (they are pure)
+          have hat : isPureForL (restNames (arity - args.length)) args = true := by simpa [hlt'] using hw.2
+          obtain ⟨rfl, gvs, hga, hrv, hall⟩ := sim_pures (restNames (arity - args.length)) n h1 hat hw.1 he
+          refine ⟨1, .clo (restNames (arity - args.length))
+            (.mk [] (.ret (.callFn f (lowerL false args ++ (restNames (arity - args.length)).map GExpr.var)))) genv, ?_, ?_⟩
+          · simp only [lowerE, hlt', if_true, List.append_nil]
+            exact g_funcLit _ 0 genv _ _
+          · rw [← hlen] at hall ⊢
+            exact VRel.pap hlt hga hrv hall
+        | true =>
+          -- fc: the arguments that are not inert are evaluated first, into `_p…` bindings
+          have hok : paOK (restNames (arity - args.length)) args = true := by simpa [hlt'] using hw.2
+          obtain ⟨m, X, gvs, _, hrun, hat, hrel, hgp⟩ := sim_paArgs ih (restNames (arity - args.length))
+            (fun i => pName_not_rest i _) args 0 h1 hw.1 hok he
+          have heX := ERel.extras he X 0 ‹_›
+          refine ⟨m + 4, .clo (restNames (arity - args.length))
+            (.mk [] (.ret (.callFn f ((paArgs 0 args (lowerL true args)).1 ++ (restNames (arity - args.length)).map GExpr.var))))
+            (X ++ genv), ?_, ?_⟩
+          · simp only [lowerE, hlt', if_true]
+            cases hemp : (paArgs 0 args (lowerL true args)).2.isEmpty with
+            | true =>
+              -- nothing to evaluate first: the closure itself
+              have hnil : (paArgs 0 args (lowerL true args)).2 = [] := List.isEmpty_iff.mp hemp
+              rw [hnil] at hrun
+              simp only [grunStmts, Res.pure, Option.some.injEq, Prod.mk.injEq] at hrun
+              obtain ⟨rfl, hX⟩ := hrun
+              simp only [if_true, List.append_nil]
+              rw [← hX]
+              exact g_funcLit _ (m + 3) genv _ _
+            | false =>
+              simp only [Bool.false_eq_true, if_false]
+              have hclo := g_funcLit (lowerProg true P) m (X ++ genv) (restNames (arity - args.length))
+                (.mk [] (.ret (.callFn f ((paArgs 0 args (lowerL true args)).1 ++ (restNames (arity - args.length)).map GExpr.var))))
+              have hb := g_body_ret (lowerProg true P)
+                (grunStmts_le (gevalN_mono _ (Nat.le_succ m)) _ _ _ hrun) hclo
+              have := g_iife (lowerProg true P) hb
+              simpa using this
+          · rw [← hlen]
+            exact VRel.pap hlt hat hrel (by rw [hlen]; exact hgp)
       · simp only [hlt, if_false] at h2
         have hlt' : ¬ args.length < arity := hlen ▸ hlt
         obtain ⟨m1, gvs, hg1, hr1⟩ := sim_list ih h1 hw.1 he
@@ -154,7 +190,7 @@ theorem sim_step (hP : wfProg P) (ih : SimAt P n) : SimAt P (n + 1) := by
         simp only [lowerE, hlt', if_false]
         exact g_callFn _ (g_lift_list _ (by omega) hg1) (find_lower hfind) hpl (g_lift_body _ (by omega) hg2)
     | callv f args =>
-      have hw : wfE f = true ∧ wfL args = true := by simpa [wfE] using hwf
+      have hw : wfE md f = true ∧ wfL md args = true := by simpa [wfE] using hwf
       simp only [stepExpr] at h
       obtain ⟨t1, fv, t2, h1, h2, rfl⟩ := Res.bind_eq_some.mp h
       obtain ⟨t3, vs, t4, h3, h4, rfl⟩ := Res.bind_eq_some.mp h2
@@ -171,7 +207,7 @@ theorem sim_step (hP : wfProg P) (ih : SimAt P n) : SimAt P (n + 1) := by
       simp only [lowerE]
       exact g_funcLit _ 0 genv _ _
     | pipe a f =>
-      have hw : wfE a = true ∧ wfE f = true := by simpa [wfE] using hwf
+      have hw : wfE md a = true ∧ wfE md f = true := by simpa [wfE] using hwf
       simp only [stepExpr] at h
       obtain ⟨t1, va, t2, h1, h2, rfl⟩ := Res.bind_eq_some.mp h
       obtain ⟨t3, vf, t4, h3, h4, rfl⟩ := Res.bind_eq_some.mp h2
@@ -182,7 +218,7 @@ theorem sim_step (hP : wfProg P) (ih : SimAt P n) : SimAt P (n + 1) := by
       simp only [lowerE]
       exact g_pipe _ (g_lift_expr _ (by omega) hg1) (g_lift_expr _ (by omega) hg2) (g_lift_app _ (by omega) hg3)
     | hof hn f args =>
-      have hw : wfE f = true ∧ wfL args = true := by simpa [wfE] using hwf
+      have hw : wfE md f = true ∧ wfL md args = true := by simpa [wfE] using hwf
       simp only [stepExpr] at h
       obtain ⟨t1, vf, t2, h1, h2, rfl⟩ := Res.bind_eq_some.mp h
       obtain ⟨t3, vs, t4, h3, h4, rfl⟩ := Res.bind_eq_some.mp h2
@@ -239,28 +275,28 @@ theorem sim_step (hP : wfProg P) (ih : SimAt P n) : SimAt P (n + 1) := by
         exact foldApp_le (gevalN_mono _ (by omega)).app _ _ _ _ _ hg3
       · cases h4
     | matchE t arms =>
-      have hw : wfE t = true ∧ wfArms arms = true := by simpa [wfE] using hwf
+      have hw : wfE md t = true ∧ wfArms md arms = true := by simpa [wfE] using hwf
       simp only [stepExpr] at h
       obtain ⟨m, gv, hg, hr⟩ := sim_match ih h hw.1 hw.2 he
       refine ⟨m + 3, gv, ?_, hr⟩
       simp only [lowerE]
-      have hb := g_body_switch (lowerProg P) (grunStmts_nil _ genv) hg
+      have hb := g_body_switch (lowerProg md P) (grunStmts_nil _ genv) hg
       simp only [List.nil_append] at hb
       exact g_iife _ hb
     | matchSE t arms =>
-      have hw : wfE t = true ∧ wfSArms arms = true := by simpa [wfE] using hwf
+      have hw : wfE md t = true ∧ wfSArms md arms = true := by simpa [wfE] using hwf
       simp only [stepExpr] at h
       obtain ⟨m, gv, hg, hr⟩ := sim_matchS ih h hw.1 hw.2 he
       refine ⟨m + 3, gv, ?_, hr⟩
       simp only [lowerE]
-      have hb := g_body_switchS (lowerProg P) (grunStmts_nil _ genv) hg
+      have hb := g_body_switchS (lowerProg md P) (grunStmts_nil _ genv) hg
       simp only [List.nil_append] at hb
       exact g_iife _ hb
   -- bodies
   · intro env b tr v h hwf genv he
     rw [evalN_succ_body] at h
     obtain ⟨ss, tail⟩ := b
-    have hw : wfSs ss = true ∧ wfT tail = true := by simpa [wfB] using hwf
+    have hw : wfSs md ss = true ∧ wfT md tail = true := by simpa [wfB] using hwf
     simp only [stepBody] at h
     obtain ⟨t1, env', t2, h1, h2, rfl⟩ := Res.bind_eq_some.mp h
     obtain ⟨m1, genv', hg1, he'⟩ := sim_stmts ih h1 hw.1 he
@@ -271,14 +307,14 @@ theorem sim_step (hP : wfProg P) (ih : SimAt P n) : SimAt P (n + 1) := by
       simp only [lowerB, lowerT]
       exact g_body_ret _ (grunStmts_le (gevalN_mono _ (by omega)) _ _ _ hg1) (g_lift_expr _ (by omega) hg2)
     | matchT t arms =>
-      have hw2 : wfE t = true ∧ wfArms arms = true := by simpa [wfT] using hw.2
+      have hw2 : wfE md t = true ∧ wfArms md arms = true := by simpa [wfT] using hw.2
       obtain ⟨m2, gv, hg2, hr2⟩ := sim_match ih h2 hw2.1 hw2.2 he'
       refine ⟨m1 + m2 + 1, gv, ?_, hr2⟩
       simp only [lowerB, lowerT]
       exact g_body_switch _ (grunStmts_le (gevalN_mono _ (by omega)) _ _ _ hg1)
         (gevalSwitch_le (gevalN_mono _ (by omega)) _ _ _ _ hg2)
     | matchST t arms =>
-      have hw2 : wfE t = true ∧ wfSArms arms = true := by simpa [wfT] using hw.2
+      have hw2 : wfE md t = true ∧ wfSArms md arms = true := by simpa [wfT] using hw.2
       obtain ⟨m2, gv, hg2, hr2⟩ := sim_matchS ih h2 hw2.1 hw2.2 he'
       refine ⟨m1 + m2 + 1, gv, ?_, hr2⟩
       simp only [lowerB, lowerT]
@@ -312,14 +348,14 @@ theorem sim_step (hP : wfProg P) (ih : SimAt P n) : SimAt P (n + 1) := by
       refine ⟨m + k + 4, gv, ?_, hr⟩
       apply g_app_clo _ hargsLen
       have hargsEval := evalList_append
-        (g_lift_list (lowerProg P) (show k ≤ m + k + 1 by omega)
-          (geval_pures (lowerProg P) (restNames (arity - vs.length)) gargs genv k ges gvs hga hall))
-        (evalList_rest_vars (lowerProg P) (m + k) (restNames (arity - vs.length)) gargs genv (restNames_nodup _) hargsLen)
-      have hcall := g_callFn (lowerProg P) hargsEval (find_lower hfind) hpl (g_lift_body _ (show m ≤ m + k + 1 by omega) hg)
-      have hb := g_body_ret (lowerProg P) (grunStmts_nil _ _) hcall
+        (g_lift_list (lowerProg md P) (show k ≤ m + k + 1 by omega)
+          (geval_pures (lowerProg md P) (restNames (arity - vs.length)) gargs genv k ges gvs hga hall))
+        (evalList_rest_vars (lowerProg md P) (m + k) (restNames (arity - vs.length)) gargs genv (restNames_nodup _) hargsLen)
+      have hcall := g_callFn (lowerProg md P) hargsEval (find_lower hfind) hpl (g_lift_body _ (show m ≤ m + k + 1 by omega) hg)
+      have hb := g_body_ret (lowerProg md P) (grunStmts_nil _ _) hcall
       simpa using hb
 
-theorem sim (hP : wfProg P) : ∀ n, SimAt P n := by
+theorem sim (hP : wfProg md P) : ∀ n, SimAt md P n := by
   intro n
   induction n with
   | zero =>
@@ -328,9 +364,9 @@ theorem sim (hP : wfProg P) : ∀ n, SimAt P n := by
 
 /-- **Forward simulation.**  If the reference semantics runs `entry ()` to completion with output `tr`,
 so does the Go-core semantics of the lowered program, with the same output. -/
-theorem lower_correct (P : Prog) (hP : wfProg P) (entry : String) (n : Nat) (tr : Trace) (v : SVal)
+theorem lower_correct (P : Prog) (hP : wfProg md P) (entry : String) (n : Nat) (tr : Trace) (v : SVal)
     (h : runProg P entry n = some (tr, v)) :
-    ∃ m gv, grunProg (lowerProg P) entry m = some (tr, gv) ∧ VRel v gv := by
+    ∃ m gv, grunProg (lowerProg md P) entry m = some (tr, gv) ∧ VRel md v gv := by
   unfold runProg at h
   cases n with
   | zero => simp [evalN] at h
@@ -340,7 +376,7 @@ theorem lower_correct (P : Prog) (hP : wfProg P) (entry : String) (n : Nat) (tr 
     obtain ⟨d, hfind, hpl, m, gv, hg, hr⟩ := sim_applyFull hP (sim hP n) h .nil
     refine ⟨m + 1, gv, ?_, hr⟩
     unfold grunProg
-    have := g_callFn (lowerProg P) (genv := []) (f := entry) (ges := []) (t1 := []) (gvs := []) rfl (find_lower hfind) hpl hg
+    have := g_callFn (lowerProg md P) (genv := []) (f := entry) (ges := []) (t1 := []) (gvs := []) rfl (find_lower hfind) hpl hg
     simpa using this
 
 end Folang.Sem
@@ -371,14 +407,14 @@ theorem grunProg_deterministic (GP : GProg) (entry : String) (n m : Nat) (r r' :
 If the reference semantics finishes with output `tr`, then EVERY completed run of the Go-core
 semantics on the lowered program — with whatever fuel — has exactly the output `tr` (and at least one
 run completes). -/
-theorem lower_correct_output (P : Prog) (hP : wfProg P) (entry : String) (n : Nat) (tr : Trace) (v : SVal)
+theorem lower_correct_output (P : Prog) (hP : wfProg md P) (entry : String) (n : Nat) (tr : Trace) (v : SVal)
     (h : runProg P entry n = some (tr, v)) :
-    (∃ m gv, grunProg (lowerProg P) entry m = some (tr, gv)) ∧
-    ∀ m tr' gv', grunProg (lowerProg P) entry m = some (tr', gv') → tr' = tr := by
+    (∃ m gv, grunProg (lowerProg md P) entry m = some (tr, gv)) ∧
+    ∀ m tr' gv', grunProg (lowerProg md P) entry m = some (tr', gv') → tr' = tr := by
   obtain ⟨m0, gv, hg, _⟩ := lower_correct P hP entry n tr v h
   refine ⟨⟨m0, gv, hg⟩, ?_⟩
   intro m tr' gv' hg'
-  have := grunProg_deterministic (lowerProg P) entry m m0 _ _ hg' hg
+  have := grunProg_deterministic (lowerProg md P) entry m m0 _ _ hg' hg
   exact (Prod.mk.inj this).1
 
 /-! ### non-vacuity: a concrete program meeting the hypotheses
@@ -398,7 +434,7 @@ def exampleProg : Prog := [
       (.ret (.pipe (.pipe (.prim .mkSlice [.lit (.int 3), .lit (.int 1)]) (.lam ["s"] (.mk [] (.ret (.hof "map" (.var "g") [.var "s"])))))
         (.lam ["s"] (.mk [] (.ret (.hof "fold" (.call "add" 2 []) [.lit (.int 0), .var "s"])))))) } ]
 
-theorem exampleProg_wf : wfProg exampleProg := by
+theorem exampleProg_wf : wfProg true exampleProg := by
   intro d hd
   simp only [exampleProg, List.mem_cons, List.not_mem_nil, or_false] at hd
   rcases hd with rfl | rfl <;> decide
@@ -412,7 +448,7 @@ def intResult (r : Option (Trace × SVal)) : Option (Trace × Int) :=
 theorem exampleProg_runs : intResult (runProg exampleProg "main" 30) = some ([], 4) := by decide
 
 /-- hence, by the theorem, so does the Go-core semantics of its lowering -/
-theorem exampleProg_lowered : ∃ m gv, grunProg (lowerProg exampleProg) "main" m = some ([], gv) := by
+theorem exampleProg_lowered : ∃ m gv, grunProg (lowerProg true exampleProg) "main" m = some ([], gv) := by
   have h2 := exampleProg_runs
   cases h : runProg exampleProg "main" 30 with
   | none => simp [h, intResult] at h2
@@ -428,5 +464,47 @@ theorem exampleProg_lowered : ∃ m gv, grunProg (lowerProg exampleProg) "main" 
       · cases h2
     obtain ⟨m, gv, hg, _⟩ := lower_correct exampleProg exampleProg_wf "main" 30 tr v h
     exact ⟨m, gv, htr ▸ hg⟩
+
+/-! ### non-vacuity for the repaired lowering: an EFFECTFUL given argument
+
+    let add (a) (b) = a + b
+    let say (tag) (v) = println tag; v
+    let main () =
+      let f = add (say "arg" 1)      -- evaluated once, here
+      (f 2) + (f 3)
+-/
+def exampleD9 : Prog := [
+  { name := "add", params := ["a", "b"], body := .mk [] (.ret (.prim (.arith "+") [.var "a", .var "b"])) },
+  { name := "say", params := ["tag", "v"], body := .mk [.exec (.prim .println [.var "tag"])] (.ret (.var "v")) },
+  { name := "main", params := [], body := .mk
+      [ .let1 "f" (.call "add" 2 [.call "say" 2 [.lit (.str "arg"), .lit (.int 1)]]) ]
+      (.ret (.prim (.arith "+") [.callv (.var "f") [.lit (.int 2)], .callv (.var "f") [.lit (.int 3)]])) } ]
+
+theorem exampleD9_wf : wfProg true exampleD9 := by
+  intro d hd
+  simp only [exampleD9, List.mem_cons, List.not_mem_nil, or_false] at hd
+  rcases hd with rfl | rfl | rfl <;> decide
+
+/-- the reference semantics prints "arg" ONCE and returns 7 -/
+theorem exampleD9_runs : intResult (runProg exampleD9 "main" 20) = some (["arg\n"], 7) := by decide
+
+/-- and so does every completed run of the lowered program (the lowering of fc after the fix), by the theorem -/
+theorem exampleD9_lowered :
+    ∀ m tr' gv', grunProg (lowerProg true exampleD9) "main" m = some (tr', gv') → tr' = ["arg\n"] := by
+  have h2 := exampleD9_runs
+  cases h : runProg exampleD9 "main" 20 with
+  | none => simp [h, intResult] at h2
+  | some r =>
+    obtain ⟨tr, v⟩ := r
+    have htr : tr = ["arg\n"] := by
+      rw [h] at h2
+      unfold intResult at h2
+      split at h2
+      · rename_i heq
+        simp only [Option.some.injEq, Prod.mk.injEq] at heq h2
+        rw [heq.1]; exact h2.1
+      · cases h2
+    intro m tr' gv' hg
+    rw [(lower_correct_output exampleD9 exampleD9_wf "main" 20 tr v h).2 m tr' gv' hg, htr]
 
 end Folang.Sem
